@@ -54,7 +54,7 @@ fn interesting(lines: &[Line]) -> bool {
 fn run(ctx: &Ctx) {
     let map = asmref::mnemonic_map();
     ctx.shrink_iters.set(30_000);
-    let cases = ctx.share(ctx.tier.pick(400_000, 16_000_000));
+    let cases = ctx.share(ctx.tier.pick(1_600_000, 32_000_000));
     ctx.search("texts", "text", cases, asmref::program(8), |lines, want_case| {
         let text = asmref::render(lines);
         let want = asmref::ref_assemble(&map, lines);
